@@ -459,6 +459,12 @@ pub fn generate_c20(tier: &str, seed: u64, out: &mut Out) {
                     vec![],
                     // a paragraph with both Source and Package is a binary
                     vec![s.clone(), { let mut x = s.clone(); x.push(("Package".into(), "p".into())); x }],
+                    // a binary paragraph that names its source: alone it leaves the file without a
+                    // source paragraph; before / after the source paragraph it is one more binary
+                    vec![{ let mut x = b.clone(); x.push(("Source".into(), "zz".into())); x }],
+                    vec![{ let mut x = vec![("Source".to_string(), "zz".to_string())]; x.extend(b.clone()); x }],
+                    vec![{ let mut x = b.clone(); x.push(("Source".into(), "zz".into())); x }, s.clone()],
+                    vec![s.clone(), { let mut x = vec![("Source".to_string(), "zz".to_string())]; x.extend(b.clone()); x }, b.clone()],
                     vec![minimal("control.Source", &mut r0), minimal("control.Binary", &mut r0)],
                 ];
                 for d in &docs {
